@@ -147,5 +147,20 @@ def one(ctx, vh, db, label, path, text, features):
         # the same text sent again (didOpen + didChange): the records are those of the text, once
         vh.call(op="analyze", db=db, path=path, text=text)
         compare(ctx, label + ":resent", path, text, vh.call(op="raw", db=db), {"resent"})
+    if sum(map(ord, label)) % 5 == 1 and "\r" not in text:
+        # a large document, then the same document with one comment line moved down by one line (same length, same bytes,
+        # its first and last kilobytes untouched): every recorded line below the move is one higher
+        pad = "# padding line\n" * 300
+        first, _, rest = text.partition("\n")
+        marker = "# a comment that moves\n"
+        v1 = pad + marker + first + "\n" + rest + "\n" + pad
+        v2 = pad + first + "\n" + marker + rest + "\n" + pad
+        if vh.call(op="parses", text=v1)["ok"] and vh.call(op="parses", text=v2)["ok"]:
+            big = path.replace(".py", "_big.py") if not path.endswith("conftest.py") else path.replace("conftest.py", "bigdir/conftest.py")
+            vh.call(op="analyze", db=db, path=big, text=v1)
+            compare(ctx, label + ":big", big, v1, vh.call(op="raw", db=db), {"big_document"})
+            vh.call(op="analyze", db=db, path=big, text=v2)
+            compare(ctx, label + ":big_moved_line", big, v2, vh.call(op="raw", db=db), {"same_length_move_in_big_document"})
+            vh.call(op="analyze", db=db, path=big, text="")
     # clear the file's records so that the next source under the same path starts clean
     vh.call(op="analyze", db=db, path=path, text="")
